@@ -5,7 +5,10 @@ EXTENDS Auth, Json
 
 CONSTANTS FlagMode,     \* "edge": none / all / singletons / all-but-one;  "all": every subset
           RdLen, WrLen, \* longest request path / stream name (segments)
-          Durs          \* black-list durations (seconds)
+          Durs,         \* black-list durations (seconds)
+          RaPre,        \* longest prefix of challenges / successful authentications before the judged DESCRIBE
+          HpMaxDev,     \* most path components of an HLS request spelled differently from the documented form
+          Kinds         \* case kinds enumerated by this run (the kinds are independent: the check runs them side by side)
 
 VARIABLES c, act
 vars == <<c, act>>
@@ -14,7 +17,8 @@ SeqsUpTo(S, n) == UNION { [1..k -> S] : k \in 1..n }
 
 Dflt == [kind |-> "", flags |-> {}, pd |-> "", form |-> "", ovr |-> "none", enable |-> FALSE, method |-> 0,
          pass |-> "plain", steps |-> <<>>, req |-> <<>>, name |-> <<>>, proto |-> "", dur |-> 0,
-         probes |-> <<>>, which |-> "", esc |-> FALSE]
+         probes |-> <<>>, which |-> "", esc |-> FALSE, peers |-> 0, fam |-> "", cfg |-> "", listed |-> FALSE,
+         hp |-> [shape |-> "", prefix |-> "", stream |-> "", fname |-> "", ext |-> "", slash |-> ""]]
 
 FlagSets == IF FlagMode = "all" THEN SUBSET Flags
             ELSE {{}, Flags} \cup {{f} : f \in Flags} \cup {Flags \ {f} : f \in Flags}
@@ -23,21 +27,55 @@ FormOvr == {[form |-> x, ovr |-> "none"] : x \in Forms \ OvrForms}
 SaCases == {[Dflt EXCEPT !.kind = "sa", !.flags = f, !.pd = p, !.form = fo.form, !.ovr = fo.ovr] :
               f \in FlagSets, p \in Pds, fo \in FormOvr}
 
-St(cr, n) == [cred |-> cr, nonce |-> n]
-Finals == {St(cr, "") : cr \in {"none", "bearer"} \cup BasicCreds} \cup {St(cr, n) : cr \in DigestCreds, n \in Nonces}
-Prefixes == {<<>>, <<St("none", "")>>, <<St("none", ""), St("none", "")>>}
-RaCases == {[Dflt EXCEPT !.kind = "ra", !.enable = TRUE, !.method = m, !.pass = pw, !.steps = p \o <<f>>] :
-              m \in {0, 1}, pw \in {"plain", "colon"}, p \in Prefixes, f \in Finals}
+St(k, cr, n) == [conn |-> k, cred |-> cr, nonce |-> n]
+Other(k) == IF k = "c1" THEN "c2" ELSE "c1"
+RightOf(m) == IF m = 0 THEN "basicRight" ELSE "digestRight"
+\* prefix alphabet: a DESCRIBE without credentials (challenge) or with the right ones, on either connection
+PreSteps(m) == {St(k, "none", "") : k \in RaConns} \cup {St(k, RightOf(m), IF m = 0 THEN "" ELSE "last") : k \in RaConns}
+\* a prefix is made of steps the server answers without closing: right Digest credentials need a challenge first
+PreOk(m, p) == \A i \in DOMAIN p : (m = 1 /\ p[i].cred = "digestRight") => RaIssuedAfter(p, i - 1, RaIssued0)[p[i].conn] >= 1
+Prefixes(m) == {p \in {<<>>} \cup SeqsUpTo(PreSteps(m), RaPre) : PreOk(m, p)}
+\* nonce classes that are distinct after prefix p on connection k
+NoncesAt(p, k) == LET n == RaIssuedAfter(p, Len(p), RaIssued0) IN
+                  {"last", "otherClosed", "forged", "empty"} \cup (IF n[k] >= 2 THEN {"first"} ELSE {})
+                  \cup (IF n[Other(k)] >= 1 THEN {"otherLive"} ELSE {})
+Finals(m) == {St(k, cr, "") : cr \in {"none", "bearer"} \cup BasicCreds, k \in RaConns}
+                \cup (IF m = 1 THEN {St(k, cr, n) : cr \in DigestCreds, k \in RaConns, n \in Nonces}
+                               ELSE {St(k, cr, "last") : cr \in DigestCreds, k \in RaConns})
+\* the two connections are interchangeable: the first step of a case is made on c1
+RaSeqs(m) == {s \in {p \o <<f>> : p \in Prefixes(m), f \in Finals(m)} :
+                /\ s[1].conn = "c1"
+                /\ LET f == s[Len(s)] IN (m = 1 /\ f.cred \in DigestCreds) => f.nonce \in NoncesAt(SubSeq(s, 1, Len(s) - 1), f.conn)}
+RaCasesOf(m) == {[Dflt EXCEPT !.kind = "ra", !.enable = TRUE, !.method = m, !.pass = pw, !.steps = s] :
+                  pw \in {"plain", "colon"}, s \in RaSeqs(m)}
+RaCases == RaCasesOf(0) \cup RaCasesOf(1)
            \cup {[Dflt EXCEPT !.kind = "ra", !.enable = FALSE, !.method = m, !.steps = <<f>>] :
-              m \in {0, 1}, f \in {St("none", ""), St("basicWrongPass", ""), St("digestWrongPass", "forged")}}
+              m \in {0, 1}, f \in {St("c1", "none", ""), St("c1", "basicWrongPass", ""), St("c1", "digestWrongPass", "forged")}}
 
-KickCases == {[Dflt EXCEPT !.kind = "kick", !.pd = p, !.which = w] : p \in Pds \ HlsPds, w \in {"real", "unknown"}}
-BlCases == {[Dflt EXCEPT !.kind = "bl", !.dur = d, !.probes = [i \in 1..(d + 2) |-> i - 1]] : d \in Durs}
+\* peers: another session of the same kind on the same stream exists when the id is kicked (one publisher per stream)
+KickCases == {[Dflt EXCEPT !.kind = "kick", !.pd = x.pd, !.which = w, !.peers = x.n] :
+                x \in {[pd |-> p, n |-> n] : p \in KickPds, n \in {0, 1}} \ {[pd |-> p, n |-> 1] : p \in {"rtmp_pub", "rtsp_pub"}},
+                w \in {"real", "unknown"}}
+BlCases == {[Dflt EXCEPT !.kind = "bl", !.dur = d, !.fam = f, !.probes = [i \in 1..(d + 2) |-> i - 1]] : d \in Durs, f \in BlFams}
 RdCases == {[Dflt EXCEPT !.kind = "rd", !.req = r, !.esc = RdEscapes(r)] : r \in SeqsUpTo(ReqTokens, RdLen)}
 WrCases == {[Dflt EXCEPT !.kind = "wr", !.name = n, !.proto = "rtmp", !.esc = WrEscapes(n)] : n \in SeqsUpTo(NameSegs, WrLen)}
            \cup {[Dflt EXCEPT !.kind = "wr", !.name = n, !.proto = "rtsp", !.esc = WrEscapes(n)] : n \in SeqsUpTo(NameSegs, 2)}
 
-Cases == SaCases \cup RaCases \cup KickCases \cup BlCases \cup RdCases \cup WrCases
+HpPaths == {p \in [shape : HpShapes, prefix : HpPrefixes, stream : HpStreams, fname : HpFnames,
+                    ext : HpExtM \cup HpExtT, slash : HpSlashes] : HpWellFormed(p) /\ HpDev(p) <= HpMaxDev}
+\* flag configuration x secret form x black-listed or not: every guarded form, the unguarded ones that must not matter
+HpCtl == {[cfg |-> "hls", form |-> f, listed |-> FALSE] : f \in HpForms}
+         \cup {[cfg |-> "all", form |-> f, listed |-> FALSE] : f \in {"absent", "s_cam1"}}
+         \cup {[cfg |-> "none", form |-> f, listed |-> FALSE] : f \in {"absent", "wrong"}}
+         \cup {[cfg |-> "allbuthls", form |-> "absent", listed |-> FALSE], [cfg |-> "none", form |-> "absent", listed |-> TRUE]}
+HpCases == {[Dflt EXCEPT !.kind = "hp", !.cfg = x.cfg, !.form = x.form, !.listed = x.listed, !.hp = p] : x \in HpCtl, p \in HpPaths}
+SvCases == {[Dflt EXCEPT !.kind = "sv", !.pd = pd, !.enable = on, !.form = f,
+                         !.hp = [shape |-> "live", prefix |-> "live", stream |-> st, fname |-> "lower", ext |-> e, slash |-> sl]] :
+              pd \in SvPds, on \in BOOLEAN, f \in SvForms, st \in SvStreams, e \in SvExts, sl \in SvSlashes}
+
+On(k, S) == IF k \in Kinds THEN S ELSE {}
+Cases == On("sa", SaCases) \cup On("ra", RaCases) \cup On("kick", KickCases) \cup On("bl", BlCases) \cup On("rd", RdCases)
+         \cup On("wr", WrCases) \cup On("hp", HpCases) \cup On("sv", SvCases)
 
 Init == c \in Cases /\ act = "init"
 Do == act = "init" /\ act' = "emit" /\ UNCHANGED c
@@ -61,7 +99,7 @@ SaMonotone == Sa => \A f \in Flags : Verdicts(c.flags \cup {f}, c.pd, c.form, c.
 
 Ra == c.kind = "ra" /\ c.enable
 LastStep == c.steps[Len(c.steps)]
-NIssued == Len(c.steps) - 1
+NIssued == RaIssuedAfter(c.steps, Len(c.steps) - 1, RaIssued0)[LastStep.conn]
 RaV == Valid(c.method, LastStep.cred, LastStep.nonce, NIssued)
 \* credentials of the other scheme, unknown schemes and missing credentials are never valid;
 \* right credentials of the configured scheme (with the nonce of the last challenge) always are
@@ -70,7 +108,11 @@ RaSdpIff == Ra => /\ (c.method = 0 /\ LastStep.cred = "basicRight") => RaV = "ye
                   /\ (c.method = 1 /\ LastStep.cred \in BasicCreds) => RaV = "no"
                   /\ (c.method = 0 /\ LastStep.cred \in DigestCreds) => RaV = "no"
                   /\ LastStep.cred \in {"none", "bearer"} => RaV = "no"
-                  /\ LastStep.nonce = "forged" => RaV = "no"
+                  /\ LastStep.nonce \in {"forged", "empty", "otherLive", "otherClosed"} => RaV = "no"
+\* a nonce is bound to the connection it was issued to: what another connection was challenged with, or did with
+\* its challenge, never changes the verdict
+RaBound == Ra => LET own == SelectSeq(SubSeq(c.steps, 1, Len(c.steps) - 1), LAMBDA x : x.conn = LastStep.conn) IN
+                  RaV = Valid(c.method, LastStep.cred, LastStep.nonce, RaIssuedAfter(own, Len(own), RaIssued0)[LastStep.conn])
 
 \* the specification never demands an answer from outside the root, and says "nothing" for every
 \* request a naive join would answer from outside
@@ -79,8 +121,21 @@ RdSound == c.kind = "rd" => /\ RdCanonical(c.req) => Inside(Target(c.req), RootH
                             /\ RdOk(c.req, <<>>) \/ RdCanonical(c.req)
 WrSound == c.kind = "wr" => /\ (c.name = <<"name">> => ~WrEscapes(c.name))
                             /\ WrOk(c.name, c.proto, <<>>, <<>>) \/ c.name = <<"name">>
+\* the gate of a spelled HLS request: no playlist of a stream without that stream's secret when the flag is on,
+\* nothing at all for a listed address, the documented forms unaffected when the flag is off; always satisfiable
+HpSound == c.kind = "hp" =>
+             LET al == HpAllowed(c.cfg, c.hp, c.form, c.listed) IN
+             /\ al # {}
+             /\ (HpGuarded(c.cfg) /\ c.form \in {"absent", "wrong"}) => \A o \in al : o.what \notin {"playlist", "record"}
+             /\ c.listed => al = {[what |-> "none", stream |-> ""]}
+             /\ (~HpGuarded(c.cfg) /\ ~c.listed /\ HpCanon(c.hp)) => al = {[what |-> HpWhat(c.hp), stream |-> c.hp.stream]}
+             /\ HpGuarded(c.cfg) => \A o \in al : o.what \in {"playlist", "record"} => o.stream = HpSecretOf(c.form)
+SvSound == c.kind = "sv" =>
+             /\ (c.enable /\ c.form # "s_cam1") => \A o \in SaObs(c.pd, TRUE) : ~SvOk(c.enable, c.pd, c.hp, c.form, o)
+             /\ \E o \in SaObs(c.pd, TRUE) \cup SaObs(c.pd, FALSE) : SvOk(c.enable, c.pd, c.hp, c.form, o)
 BlSound == c.kind = "bl" => \A i \in DOMAIN c.probes :
-                              LET t == BlAdd(<<>>, "a", 0, c.dur) IN
+                              LET t == BlTbl(c.dur) IN
+                              /\ BlMay(t, "c", c.probes[i]) = {FALSE}
                               /\ BlMay(t, "b", c.probes[i]) = {TRUE}
                               /\ c.probes[i] < c.dur => BlMay(t, "a", c.probes[i]) = {FALSE}
                               /\ c.probes[i] > c.dur => BlMay(t, "a", c.probes[i]) = {TRUE}
